@@ -1,5 +1,6 @@
 import Ebu.Generated.Consts
 import Ebu.Generated.SqlFacts
+import Ebu.Props.C03
 import Ebu.Spec.Log
 import Ebu.Proofs.Log
 /-!
@@ -85,6 +86,11 @@ theorem sqlite_reads_are_position_cursors :
     (Ebu.Generated.Sql.readSqls.all (fun st =>
       (st.drop 8).take 7 == ["FROM", "events", "WHERE", "position", ">", "?", "ORDER"] && !st.contains "OFFSET" &&
       (st.drop 15 == ["BY", "position"] || st.drop 15 == ["BY", "position", "LIMIT", "?"]))) = true := by decide
+
+/-- replays select by `offset > from`: that is only right on a log whose offsets increase in log order, which for the
+memory store rests on `Append` being one critical section in the CURRENT source -/
+theorem memory_log_in_offset_order : Ebu.Locks.MemAppendAtomic Ebu.Generated.accessFacts = true :=
+  Ebu.Props.C03.facts_memstore_append_atomic
 
 /-- the model's default batch size is the one in the CURRENT source (extracted from Replay) -/
 theorem default_batch_matches_source : effBatch 0 = Ebu.Generated.Consts.replayDefaultBatch ∧ effBatch (-5) = Ebu.Generated.Consts.replayDefaultBatch := by
